@@ -16,7 +16,7 @@ use dashmap::DashMap;
 #[cfg(feature="smallvec")]
 use smallvec::{Array, SmallVec};
 #[cfg(feature="bitvec")]
-use bitvec::prelude::*;
+use bitvec::{field::BitField, prelude::*};
 
 use crate::{plugin::Plugin, session::Session};
 
@@ -552,18 +552,29 @@ impl<T: Array> Encode for SmallVec<T> where T::Item: Encode {
 }
 
 #[cfg(feature="bitvec")]
-impl<T: Encode + BitStore, O: BitOrder> Encode for BitVec<T, O> {
+impl<T: Encode + BitStore, O: BitOrder> Encode for BitVec<T, O>
+where
+    BitSlice<T, O>: BitField,
+{
     fn encode<E: Encoder + ?Sized>(
         &self,
         encoder: &mut E,
-        plugin: &Plugin,
-        session: &mut Session,
+        _plugin: &Plugin,
+        _session: &mut Session,
     ) -> io::Result<()> {
         encoder.emit_usize(self.len())?;
-        let underlying = self.as_raw_slice();
-        for item in underlying {
-            item.encode(encoder, plugin, session)?;
+
+        // The decoder reads `len.div_ceil(8)` raw bytes and appends them with
+        // `io::Write`, which stores one byte per 8-bit chunk (`store_be`).
+        // Emit exactly those bytes, whatever the storage type is: encoding the
+        // raw storage elements is only the same thing for `u8` storage.
+        let mut padded = self.clone();
+        padded.resize(self.len().div_ceil(8) * 8, false);
+
+        for chunk in padded.chunks_exact(8) {
+            encoder.emit_u8(chunk.load_be::<u8>())?;
         }
+
         Ok(())
     }
 }
